@@ -32,6 +32,7 @@ THEOREMS = [
     "JanetModel.Props.C06.close_wakes_all",
     "JanetModel.Props.C06.conservation",
     "JanetModel.Props.C06.nothing_twice",
+    "JanetModel.Props.C06.select_losing_give_value_delivered",
     "JanetModel.Props.C06.select_give_to_waiting_taker_sticks",
     "JanetModel.Props.C06.take_wakes_stale_select_writer",
     "JanetModel.Props.C06.close_wakes_stale_select_waiter",
@@ -168,13 +169,12 @@ def gen_programs(ctx, quick, boost):
     for k in range(ntime):
         items.append(("T%d" % k, r.below(1 << 31), P.random_program(r, max_fibers=4, max_ops=5 if k % 3 else 4, timing=True)))
     dist["random with ev/cancel, ev/sleep d, ev/with-deadline"] = ntime
-    # selects that name one channel in several clauses can match themselves: compared with the model, oracle results
-    # only counted (see notes/C06.md)
+    # selects that name one channel in several clauses can match themselves (known finding select-self-match-...)
     nself = (1500 if quick else 30000) * boost
     r = ctx.rng.fork("selfmatch")
     for k in range(nself):
         items.append(("S%d" % k, r.below(1 << 31), P.random_program(r, max_ch=2, same_chan=True)))
-    dist["random with same-channel selects (oracle counted only)"] = nself
+    dist["random with same-channel selects"] = nself
     return items, dist
 
 
@@ -376,9 +376,11 @@ def run(ctx, only=None):
         fails, stats = P.oracle(prog, verdict, log)
         for k, v in stats.items():
             stats_total[k] = stats_total.get(k, 0) + v
-        if fails and pid.startswith("S"):
+        if any(k == P.SELF_MATCH for k, _ in fails):
+            # everything else this program shows is a consequence of the select that matched itself
             selfmatch_anomalies += 1
-        elif fails:
+            fails = [(k, t) for k, t in fails if k == P.SELF_MATCH][:1]
+        if fails:
             failing.append((pid, seed, prog, fails))
             for k in set(k for k, _ in fails):
                 nviol_kinds.setdefault(k, []).append(pid)
@@ -402,6 +404,9 @@ def run(ctx, only=None):
                 by_kind[k] = (size, pid, seed, prog, text)
     for k in sorted(by_kind):
         size, pid, seed, prog, text = by_kind[k]
+        if k in P.KNOWN_KINDS and ctx._match_known(k) is not None:
+            ctx.violation(k, {"kind": k, "program": P.short(prog)}, what=text)   # prints the KNOWN-FINDING line once
+            continue
         small = minimise(hx, prog, seed, k)
         rc, res, err = run_harness_chunk(hx, [("m", seed, small)])
         verdict, rng, log = res.get("m", ("crash", [], ""))
@@ -412,7 +417,7 @@ def run(ctx, only=None):
                "found_in": pid, "failing_programs_of_this_kind": len(nviol_kinds.get(k, [])), "broken": broken[:6]}
         if verdict == "idle-forever":
             rep["standalone_run"] = confirm_standalone(ctx, small)
-        ctx.violation("%s:%s" % (k, P.short(small)), rep, what="%s: %s   [%s]" % (k, text2, P.short(small)))
+        ctx.violation(k if k in P.KNOWN_KINDS else "%s:%s" % (k, P.short(small)), rep, what="%s: %s   [%s]" % (k, text2, P.short(small)))
         reported += 1
     if broken and not reported:
         ctx.violation("broken:" + broken[0][:80], {"kind": "broken-obligation", "broken": broken, "first_diffs": [dict(d, prog=None) for d in diffs[:3]],
